@@ -6,8 +6,8 @@
    [splice v off d] = v with the bytes d at position off; [sub v off n] = n bytes of v from off;
    [spec_readable] / [spec_writable] are the permissions the options stand for (no_read_access, no_write_access,
    const, fixed_value / cstring_value / fixed_blob_value, missing read / write handler). *)
-From BT Require Import Base.ListX AttDb.AttDbModel NQueue.NQueueModel AttSrv.AttSrvModel AttSrv.AttSrvSpecVal
-  AttSrv.AttSrvSpecC06 AttSrv.AttSrvProofsVal AttSrv.AttSrvProofsC06 AttSrv.AttSrvExamplesVal.
+From BT Require Import Base.ListX AttDb.AttDbModel AttDb.AttDbProofs NQueue.NQueueModel AttSrv.AttSrvModel AttSrv.AttSrvSpecVal
+  AttSrv.AttSrvSpecC06 AttSrv.AttSrvProofsVal AttSrv.AttSrvProofsC06 AttSrv.AttSrvProofsC06Scan AttSrv.AttSrvExamplesVal.
 Local Open Scope N_scope.
 
 (* ---- writes: a Write Request / Write Command / executed prepared write through a characteristic value: if it
@@ -130,8 +130,16 @@ Print Assumptions C06_refines_reference_store_refuted.
    Multiple (their responses are scanned by the monitor for unreadable handles; tied, not proved) *)
 Theorem C06_refines_reference_store_partial :
   forall c ops, no_k1 c -> forallb not_scanned ops = true -> monitor c (srv_run c (srv_init c) ops) = None.
-Proof. exact monitor_sound. Qed.
+Proof. exact AttSrvProofsC06.monitor_sound. Qed.
 Print Assumptions C06_refines_reference_store_partial.
+
+(* every history, Read By Type and Read Multiple included: for well formed configurations without
+   include_service<> (inverse laws of the handle mapping: C04) and without that finding, no Read By Type entry
+   and no answered Read Multiple names a value that must not be readable *)
+Theorem C06_refines_reference_store_all :
+  forall c ops, wf c -> no_includes c -> no_k1 c -> monitor c (srv_run c (srv_init c) ops) = None.
+Proof. exact AttSrvProofsC06Scan.monitor_sound_all. Qed.
+Print Assumptions C06_refines_reference_store_all.
 
 Theorem C06_no_k1_decidable : forall c, no_k1_b c = true -> no_k1 c.
 Proof. exact no_k1_b_sound. Qed.
